@@ -189,3 +189,7 @@ where
         Identifier::validate(self.as_str()).map_err(rkyv::rancor::Source::new)
     }
 }
+
+#[cfg(kani)]
+#[path = "/verif/kani/aranya-policy-text/ident.rs"]
+mod verif_kani;
